@@ -6,6 +6,16 @@ NOTE_COMMON = ("Trusted: Coq kernel + vm_compute; the hand-written model (tied t
                "inputs); harness/differ/parser; extract_consts.py. Axioms: none beyond those listed per property. ")
 
 TEXTS = {
+    "C01": {
+        "text": "Theorems (Properties/C01.v): any observation of an ontology that passes the executable statement closure_ok reports, "
+                "for every term, exactly clos_trans of the reported parent relation, never the term itself, children as the exact "
+                "inverse of parents, child_of/parent_of as membership (proved for all observations, no bound). The check evaluates "
+                "closure_ok inside Coq on the real crate's observation of every generated ontology and diffs the Gallina transcription "
+                "of connect_all_terms/create_cache_of_grandparents/all_grandparents against the crate.",
+        "design_ref": "DESIGN.md §4 C01",
+        "note": NOTE_COMMON + "Acyclic inputs only (the property's quantifier).",
+        "technique": TECH,
+    },
     "C12": {
         "text": "Unbounded theorems (Properties/C12.v, 12 statements, closed under the global context): every group operation "
                 "(insert, contains, |, &, +, | id, the four constructors) preserves strict ascending order and computes exactly the "
